@@ -371,6 +371,25 @@ def _accumulators(block: list[ast.stmt]) -> None:
         i += 1
 
 
+def _extend_to_concat(block: list[ast.stmt]) -> None:
+    """`xs = [a, b]` directly followed by `xs.extend(<comprehension / generator>)`  ->  `xs = [a, b] + [<comprehension>]`."""
+    i = 0
+    while i + 1 < len(block):
+        a, e = block[i], block[i + 1]
+        if isinstance(a, ast.Assign) and len(a.targets) == 1 and isinstance(a.targets[0], ast.Name) and isinstance(a.value, ast.List) \
+                and isinstance(e, ast.Expr) and isinstance(e.value, ast.Call) and isinstance(e.value.func, ast.Attribute) and e.value.func.attr == "extend" \
+                and isinstance(e.value.func.value, ast.Name) and e.value.func.value.id == a.targets[0].id and len(e.value.args) == 1 and not e.value.keywords \
+                and isinstance(e.value.args[0], (ast.GeneratorExp, ast.ListComp)) and _pure(e.value.args[0]) \
+                and not any(isinstance(x, ast.Name) and x.id == a.targets[0].id for x in ast.walk(e.value.args[0])):
+            g = e.value.args[0]
+            comp = ast.copy_location(ast.ListComp(elt=g.elt, generators=g.generators), g)
+            a.value = ast.copy_location(ast.BinOp(left=a.value, op=ast.Add(), right=comp), a.value)
+            ast.fix_missing_locations(a)
+            del block[i + 1]
+            continue
+        i += 1
+
+
 def _split_tuple_assign(block: list[ast.stmt]) -> None:
     """The split idiom written as two statements, `h = v[:n]` then `v = v[n:]`, becomes `h, v = v[:n], v[n:]`
     (the second right-hand side does not mention h, so evaluating both before binding is the same)."""
@@ -966,6 +985,71 @@ def _hoist_common_tail_return(fn: T.Any) -> None:
         fn.body[:] = _guard_clauses(fn.body, True, False)
 
 
+def _walrus_loops(fn: T.Any) -> None:
+    """`while (v := E) <op> K: body`  ->  `v = E` / `while v <op> K: body; v = E`  (the priming form the repository uses)."""
+    for b in list(_blocks(fn)):
+        i = 0
+        while i < len(b):
+            lp = b[i]
+            if isinstance(lp, ast.While) and not lp.orelse:
+                t = lp.test
+                ne = t.left if isinstance(t, ast.Compare) and isinstance(t.left, ast.NamedExpr) else t if isinstance(t, ast.NamedExpr) else \
+                    t.operand if isinstance(t, ast.UnaryOp) and isinstance(t.op, ast.Not) and isinstance(t.operand, ast.NamedExpr) else None
+                if ne is not None and isinstance(ne.target, ast.Name) and sum(1 for x in ast.walk(t) if isinstance(x, ast.NamedExpr)) == 1 \
+                        and not any(isinstance(x, ast.Continue) for st in lp.body for x in ast.walk(st)):
+                    v = ne.target.id
+                    prime = ast.copy_location(ast.Assign(targets=[ast.Name(id=v, ctx=ast.Store())], value=ne.value), lp)
+                    again = ast.copy_location(ast.Assign(targets=[ast.Name(id=v, ctx=ast.Store())], value=_clone(ne.value)), lp)
+                    ref = ast.copy_location(ast.Name(id=v, ctx=ast.Load()), ne)
+                    if isinstance(t, ast.Compare):
+                        t.left = ref
+                    elif isinstance(t, ast.UnaryOp):
+                        t.operand = ref
+                    else:
+                        lp.test = ref
+                    lp.body.append(again)
+                    ast.fix_missing_locations(prime)
+                    ast.fix_missing_locations(lp)
+                    b[i:i] = [prime]
+                    i += 1
+            i += 1
+
+
+def _expand_starred_tuples(fn: T.Any) -> None:
+    """`t = (a, b, c)` (t bound once to a tuple of plain names) used only as `f(*t)`  ->  `f(a, b, c)`."""
+    own = list(_own_nodes(fn))
+    for b in list(_blocks(fn)):
+        for st in list(b):
+            if isinstance(st, ast.Assign) and len(st.targets) == 1 and isinstance(st.targets[0], ast.Name) and isinstance(st.value, ast.Tuple) \
+                    and all(isinstance(e, ast.Name) for e in st.value.elts):
+                t = st.targets[0].id
+                stores = [n for n in own if isinstance(n, ast.Name) and n.id == t and isinstance(n.ctx, (ast.Store, ast.Del))]
+                loads = [n for n in own if isinstance(n, ast.Name) and n.id == t and isinstance(n.ctx, ast.Load)]
+                elts = {e.id for e in st.value.elts}
+                rebound = any(isinstance(n, ast.Name) and n.id in elts and isinstance(n.ctx, (ast.Store, ast.Del)) for n in own)
+                starred = [n for n in own if isinstance(n, ast.Starred) and any(n.value is l for l in loads)]
+                calls = [c for c in own if isinstance(c, ast.Call) and any(a in starred for a in c.args)]
+                if len(stores) == 1 and loads and len(starred) == len(loads) and not rebound and len(calls) == len(starred):
+                    for c in calls:
+                        new_args: list[ast.expr] = []
+                        for a in c.args:
+                            if a in starred:
+                                new_args += [ast.copy_location(ast.Name(id=e.id, ctx=ast.Load()), a) for e in st.value.elts]
+                            else:
+                                new_args.append(a)
+                        c.args = new_args
+                    b.remove(st)
+                    if not b:
+                        b.append(ast.copy_location(ast.Pass(), st))
+                    own = list(_own_nodes(fn))
+
+
+def _drop_empty_else(fn: T.Any) -> None:
+    for n in _own_nodes(fn):
+        if isinstance(n, ast.If) and n.orelse and all(isinstance(x, ast.Pass) for x in n.orelse) and n.body and not all(isinstance(x, ast.Pass) for x in n.body):
+            n.orelse = []
+
+
 def _merge_identical_branches(fn: T.Any) -> None:
     """`if A: S elif B: S [else: R]`  ->  `if A or B: S [else: R]`  (same statements, side-effect free tests)."""
     changed = True
@@ -1410,10 +1494,13 @@ def canonicalise(tree: ast.Module, known_globals: set[str] | None = None, known_
         _aliases(fn, mutable.get(id(fn)))
         for b in list(_blocks(fn)):
             _accumulators(b)
+            _extend_to_concat(b)
             _split_tuple_assign(b)
             _flag_loops(b)
             _rotate_priming(b)
             _break_then_exit(b)
+        _walrus_loops(fn)
+        _expand_starred_tuples(fn)
         _merge_identical_branches(fn)
         _inline_named_tests(fn)
         _tail_bool_returns(fn)
@@ -1439,4 +1526,5 @@ def canonicalise(tree: ast.Module, known_globals: set[str] | None = None, known_
         _dead_constant_stores(fn)
         _ifelse_temp_to_expr(fn)
         _collapse_generated_temps(fn)
+        _drop_empty_else(fn)
     ast.fix_missing_locations(tree)
